@@ -669,3 +669,37 @@ api_harness!(sink_in_span_send, stub_ready, {
     kani::assert(nlog() == 1 && rec(0).set_kind == 2, "send_keeps_span_open: only the call's local spans are submitted");
     std::mem::forget(s);
 });
+
+api_harness!(sink_in_span_flush, stub_ready, {
+    let i1 = any_item();
+    kani::assume(i1.is_sampled);
+    let span = Span::new(vec![i1], "sink", None);
+    let sid = id_of(&span);
+    let mut s = VSinkExt::<u8>::in_span(Snk { last: 0 }, span);
+    let waker = Waker::noop();
+    let mut cx = Context::from_waker(&waker);
+    let r = Pin::new(&mut s).poll_flush(&mut cx);
+    kani::assert(r == Poll::Ready(Ok(())), "adapter_is_transparent: poll_flush result passed through");
+    let seen = unsafe { SEEN_IN_POLL };
+    kani::assert(seen.is_some() && seen.unwrap().span_id == sid, "span_is_local_parent_during_call: the adapter's span is the local parent inside poll_flush");
+    kani::assert(SpanContext::current_local_parent().is_none(), "context_restored_after_call: no local parent after the call");
+    kani::assert(nlog() == 1 && rec(0).set_kind == 2, "flush_keeps_span_open: only the call's local spans are submitted");
+    std::mem::forget(s);
+});
+
+api_harness!(sink_in_span_ready, stub_ready, {
+    let i1 = any_item();
+    kani::assume(i1.is_sampled);
+    let span = Span::new(vec![i1], "sink", None);
+    let sid = id_of(&span);
+    let mut s = VSinkExt::<u8>::in_span(Snk { last: 0 }, span);
+    let waker = Waker::noop();
+    let mut cx = Context::from_waker(&waker);
+    let r = Pin::new(&mut s).poll_ready(&mut cx);
+    kani::assert(r == Poll::Ready(Ok(())), "adapter_is_transparent: poll_ready result passed through");
+    let seen = unsafe { SEEN_IN_POLL };
+    kani::assert(seen.is_some() && seen.unwrap().span_id == sid, "span_is_local_parent_during_call: the adapter's span is the local parent inside poll_ready");
+    kani::assert(SpanContext::current_local_parent().is_none(), "context_restored_after_call: no local parent after the call");
+    kani::assert(nlog() == 1 && rec(0).set_kind == 2, "ready_keeps_span_open: only the call's local spans are submitted");
+    std::mem::forget(s);
+});
